@@ -37,8 +37,39 @@ def pick_world(rng):
         force += ["alternates"]
     if rng.random() < 0.5:
         force += ["composites"]
-    return world.gen_family(rng, force=force, forbid=("color", "dottedcircle", "math", "discrete_axis", "explicit_default_layer"),
-                            n_masters=rng.choice([2, 2, 2, 3, 3, 1]), max_glyphs=10)
+    fam = world.gen_family(rng, force=force, forbid=("color", "dottedcircle", "math", "discrete_axis", "explicit_default_layer"),
+                           n_masters=rng.choice([2, 2, 2, 3, 3, 1]), max_glyphs=10)
+    _alt_refers_to_base(fam)
+    return fam
+
+
+def _alt_refers_to_base(fam):
+    """In some families the substitute of a rule is built *from* the glyph it replaces
+    (``a.alt`` = component ``a`` + its own contours) while ``a`` has no components: the
+    swap then has to re-point a reference that only exists once the contents have been
+    exchanged.  The decision comes from a private PRNG keyed by the family's content, so
+    the shared stream (and with it every other generated family) is left as it was."""
+    import random as _random
+    subs = [p for r in fam.get("rules") or [] for p in r["subs"]]
+    if not subs:
+        return
+    m0 = fam["masters"][0]["glyphs"]
+    key = "alt-of-base:%s:%s" % (fam["upm"], ",".join("%s=%s" % (n, g["width"]) for n, g in sorted(m0.items())))
+    prng = _random.Random(key)
+    if prng.random() >= 0.4:
+        return
+    for a, b in subs:
+        if not b.startswith(a + ".") or a not in m0 or b not in m0:
+            continue
+        if m0[a]["components"] or m0[b]["components"]:
+            continue
+        dx = prng.choice([0, 30, 45])
+        for k, m in enumerate(fam["masters"]):
+            layers = [m["glyphs"]] + list((m.get("layers") or {}).values())
+            for lay in layers:
+                if b in lay and a in lay:
+                    lay[b]["components"].append([a, [1, 0, 0, 1, dx + 10 * k, 0]])
+        break
 
 
 def ds_facts(ds):
